@@ -1,5 +1,6 @@
 import Driver.GraphIO
 import EchoVerif.Model.Guard
+import EchoVerif.Model.Exec
 
 namespace Driver.C14
 open EchoVerif EchoVerif.Graph EchoVerif.Generated EchoVerif.Guard Driver Driver.GraphIO
@@ -111,15 +112,21 @@ def targetsStr (o : Op) : String :=
     ++ s!" edges {t.edges.length}" ++ String.join (t.edges.map (fun n => " " ++ id32Tok n))
     ++ s!" atts {t.atts.length}" ++ String.join (t.atts.map (fun k => " " ++ keyStr k))
 
+def movedStr (a : WState) (o : Op) : String :=
+  let m := match (opTargets o).warp with
+    | some w => (match a.store? w with | some st => movedPrev w st o | none => none)
+    | none => none
+  match m with | some n => s!" moved {id32Tok n}" | none => " moved -"
+
 def targets : P String := do
   let a ← state
   let o ← op
   done
   match applyOps a [o] with
-  | .error e => pure s!"{targetsStr o} ; err {errStr e}"
+  | .error e => pure s!"{targetsStr o}{movedStr a o} ; err {errStr e}"
   | .ok b =>
     let ch := changedLocs a b
-    pure (s!"{targetsStr o} ; changed {ch.length}" ++ String.join (ch.map (fun l => " " ++ locStr l)))
+    pure (s!"{targetsStr o}{movedStr a o} ; changed {ch.length}" ++ String.join (ch.map (fun l => " " ++ locStr l)))
 
 /-! ### C14.check -/
 
@@ -155,6 +162,26 @@ def check : P String := do
         | none => pure "ok"
         | some v => pure (violationStr v)
     | x => throw s!"bad access {x}"
+
+/-! ### C14.checkin -/
+
+def checkin : P String := do
+  let s ← state
+  let warp ← id32
+  let sys ← num
+  let f ← fp
+  expect "OP"
+  let o ← op
+  done
+  match s.store? warp with
+  | none => pure "missing-store"
+  | some st =>
+    match mkGuard f warp (sys != 0) with
+    | none => pure "guard-panic"
+    | some g =>
+      match checkOpIn g st o with
+      | none => pure "ok"
+      | some v => pure (violationStr v)
 
 /-! ### C14.guard -/
 
@@ -198,7 +225,40 @@ def guard : P String := do
   | some r => pure r
   | none => pure "ok"
 
+/-! ### C14.tick — engine level: violation, or the locations the committed tick changed -/
+
+/-- `parallel/merge.rs::check_write_to_new_warp` over the extracted `collect_new_warps` /
+    `extract_target_warp`. -/
+def writeToNew (ops : List Op) : Bool :=
+  let nw := ops.filterMap newWarp
+  ops.any (fun o => match mergeTargetWarp o with | some w => nw.contains w | none => false)
+
+def tick : P String := do
+  let _workers ← num
+  let s ← state
+  let items ← counted item
+  done
+  let results := items.map (fun it =>
+    match mkGuard it.fp it.warp it.system, s.store? it.warp with
+    | some g, some st => some (runItem g st it.prog)
+    | _, _ => none)
+  match results.find? (fun r => match r with | some (.ok _) => false | _ => true) with
+  | some (some r) => pure (resultStr r)
+  | some none => pure "guard-panic-or-missing-store"
+  | none =>
+    let deltas := results.filterMap (fun r => match r with | some (.ok ops) => some ops | _ => none)
+    match Exec.mergeOps deltas with
+    | .error _ => pure "ok commit-err"
+    | .ok ops =>
+      if writeToNew ops then pure "ok commit-err" else
+      match applyOps s (Exec.patchCanon ops) with
+      | .error _ => pure "ok commit-err"
+      | .ok s' =>
+        let ch := changedLocs s s'
+        pure (s!"ok changed {ch.length}" ++ String.join (ch.map (fun l => " " ++ locStr l)))
+
 def handlers : List (String × (List String → String)) :=
-  [("C14.targets", runP targets), ("C14.check", runP check), ("C14.guard", runP guard)]
+  [("C14.targets", runP targets), ("C14.check", runP check), ("C14.checkin", runP checkin),
+   ("C14.guard", runP guard), ("C14.tick", runP tick)]
 
 end Driver.C14
